@@ -3,7 +3,8 @@
 // inside and outside the two-phase region.  For every trial state that `stability_analysis` returns the tangent-plane
 // distance is recomputed independently from fugacity coefficients,
 //     tpd = sum_i y_i (ln y_i + ln phi_i(y) - ln z_i - ln phi_i(z)),
-// and the trial state must be at the temperature and pressure of the analysed state with mole fractions that sum to one;
+// and the trial state must be at the temperature and pressure of the analysed state with mole fractions that sum to one
+// (feeds in which one component of the model is absent included: such a component must not appear in a returned trial phase);
 // anything else is printed as `WITNESS ...`.
 use feos::pcsaft::{PcSaft, PcSaftParameters};
 use feos_core::parameter::{IdentifierOption, Parameter};
@@ -22,8 +23,9 @@ fn vx_witness_stability() {
             let t = (220.0 + 30.0 * it as f64) * KELVIN;
             for ip in 0..8 {
                 let p = (0.2 * 2.5f64.powi(ip)) * BAR;
-                for ix in 1..6 {
-                    let z = arr1(&[0.2 * ix as f64 - 0.1, 1.1 - 0.2 * ix as f64]);
+                for ix in 0..7 {
+                    // ix = 0 and 6: a component of the model that is absent from the feed
+                    let z = match ix { 0 => arr1(&[0.0, 1.0]), 6 => arr1(&[1.0, 0.0]), _ => arr1(&[0.2 * ix as f64 - 0.1, 1.1 - 0.2 * ix as f64]) };
                     for init in [DensityInitialization::Vapor, DensityInitialization::Liquid] {
                         let Ok(s) = State::new_npt(&eos, t, p, &(z.clone() * MOL), init) else { continue };
                         let Ok(trials) = s.stability_analysis(SolverOptions::default()) else { continue };
@@ -39,7 +41,10 @@ fn vx_witness_stability() {
                         let d = s.ln_phi() + s.molefracs.mapv(f64::ln);
                         for y in &trials {
                             n_trials += 1;
-                            let tpd = (&y.molefracs * &(y.ln_phi() + y.molefracs.mapv(f64::ln) - &d)).sum();
+                            // 0 ln 0 = 0: a component absent from the trial phase contributes nothing; a trial phase that
+                            // contains a component the feed does not have has tpd = +inf
+                            let lnphi_y = y.ln_phi();
+                            let tpd: f64 = (0..2).map(|i| if y.molefracs[i] == 0.0 { 0.0 } else { y.molefracs[i] * (lnphi_y[i] + y.molefracs[i].ln() - d[i]) }).sum();
                             let dt = ((y.temperature - s.temperature) / s.temperature).into_value().abs();
                             let ps = s.pressure(Contributions::Total);
                             let dp = ((y.pressure(Contributions::Total) - ps) / ps).into_value().abs();
